@@ -23,6 +23,8 @@ pub struct Violation {
 
 #[derive(Default)]
 pub struct Sink {
+    /// prepended to the detail of game violations (which synthetic twin of the recorded state was judged)
+    pub context: Option<String>,
     pub counters: BTreeMap<String, u64>,
     pub distinct: HashSet<u64>,
     pub distinct_overflow: u64,
@@ -121,7 +123,11 @@ impl Sink {
     }
     /// violation whose witness is a game prefix
     pub fn violate_game(&mut self, property: &'static str, clause: &str, rec: &GameRecord, detail: String) {
-        let sig = format!("{}|{}|{}", property, clause, rec.signature());
+        let detail = match &self.context {
+            Some(c) => format!("[{}] {}", c, detail),
+            None => detail,
+        };
+        let sig = format!("{}|{}|{}{}", property, clause, rec.signature(), self.context.as_deref().map(|c| format!("|{}", c)).unwrap_or_default());
         let mut w = rec.to_json();
         w["state_index"] = json!(rec.actions.len());
         w["clause"] = json!(clause);
